@@ -169,7 +169,7 @@ def check(ctx):
     for k in range(len(write_runs)):
         cases, res = gen["w%d" % k]
         require_tlc_ok(res, "laws of Write on the specification (MC_TxtarWrite %s)" % (write_runs[k],))
-        ncases = res.generated - 3          # 3 initial states (populations), every other generated state is a transition
+        ncases = res.generated - 4          # 4 initial states (populations), every other generated state is a transition
         if res.emits != res.generated:
             raise NoVerdict("MC_TxtarWrite emitted %d lines for %d generated states" % (res.emits, res.generated))
         out = ctx.path("wreplay%d.json" % k)
